@@ -39,9 +39,18 @@ BAD = -999
 
 # ----------------------------------------------------------------------------- real meshes
 def build_mesh(desc):
-    """desc -> real optimism Mesh (no node sets yet)."""
+    """desc -> real optimism Mesh (no node sets yet).  A "renum" entry renumbers the nodes of the described mesh by a
+    seeded permutation: same array shapes, same node count, different connectivity content."""
     import jax.numpy as np
     from optimism import Mesh
+    if "renum" in desc:
+        base = build_mesh({k: v for k, v in desc.items() if k != "renum"})
+        N = int(base.coords.shape[0])
+        perm = onp.random.RandomState(desc["renum"]).permutation(N)          # old node id -> new node id
+        inv = onp.argsort(perm)
+        return base._replace(coords=np.array(onp.asarray(base.coords)[inv]),
+                             conns=np.array(perm[onp.asarray(base.conns)]),
+                             simplexNodesOrdinals=np.array(perm[onp.asarray(base.simplexNodesOrdinals)]))
     kind = desc["kind"]
     if kind == "named":
         name = desc["name"]
@@ -124,8 +133,13 @@ def observe(case):
     import jax.numpy as np
     from optimism import FunctionSpace
     from optimism.SparseMatrixAssembler import assemble_sparse_stiffness_matrix  # noqa: F401 (anchor import)
-    fs = function_space(case["mesh"], case["nodeSets"])
     dim = int(case["dim"])
+    if case.get("prior"):
+        # history: a DofManager with the same node sets, field count and BC list is first built on another mesh with
+        # the same array shapes (what a second analysis in the same process does); the one judged is built after it
+        fsp = function_space(case["prior"], case["nodeSets"])
+        FunctionSpace.DofManager(fsp, dim, [FunctionSpace.EssentialBC(nodeSet=s, component=int(c)) for s, c in case["bcs"]])
+    fs = function_space(case["mesh"], case["nodeSets"])
     conns = onp.asarray(fs.mesh.conns)
     N = int(fs.mesh.coords.shape[0])
     ebcs = [FunctionSpace.EssentialBC(nodeSet=s, component=int(c)) for s, c in case["bcs"]]
@@ -496,13 +510,15 @@ def main(tier, replay=None):
         "element connectivities list distinct nodes (checked by TypeOK for the design meshes, true of optimism meshes)",
         "token fields are float64 arrays of the integers 1..N*Dim; read back exactly (no tolerance)",
         "components are 0..Dim-1 and node-set members are valid node ids (negative / out-of-range indices not explored)",
+        "twin histories: a DofManager is built on mesh A and then, in the same process, on a node-renumbered twin of A "
+        "(same shapes, same constraint pattern, different connectivity); the second one is judged",
     ]
     rng = random.Random(common.seed())
     nproc = int(os.environ.get("VERIF_PROCS", str(min(8, os.cpu_count() or 1))))
     t0 = time.time()
     if replay:
         stored = json.load(open(replay))
-        case = {k: v for k, v in stored["case"].items() if k in ("mesh", "dim", "nodeSets", "bcs", "tokSeed", "jnp", "src")}
+        case = {k: v for k, v in stored["case"].items() if k in ("mesh", "dim", "nodeSets", "bcs", "tokSeed", "jnp", "src", "prior")}
         cases = [case]
         nstates = 1
     else:
@@ -529,6 +545,13 @@ def main(tier, replay=None):
                 extra += [random_case(rng, desc) for _ in range(per)]
         rep.coverage["random_cases"] = len(extra)
         cases += extra
+        # histories: the same BC list on a renumbered twin of the mesh, built right after the original in one process
+        ntw = 250 if tier == "quick" else 2500
+        pick = extra + rng.sample(cases[:len(cases) - len(extra)], min(ntw, len(cases) - len(extra)))
+        twins = [dict(c, mesh=dict(c["mesh"], renum=rng.randrange(1000)), prior=c["mesh"], src=c["src"] + "-twin")
+                 for c in pick]
+        rep.coverage["twin_history_cases"] = len(twins)
+        cases += twins
         # distinct = distinct (mesh, Dim, declared mask); non-trivial = the mask is neither empty nor all dofs
         allkeys = {mask_key(c) for c in cases}
         sizes = {}
